@@ -125,7 +125,10 @@ class Dialect:
     def formatter_func(self, entry) -> Optional[ast.FunctionDef]:
         mod, node = entry
         if isinstance(node, ast.Name) and node.id in mod.functions:
-            return mod.functions[node.id].node
+            fn = mod.functions[node.id].node
+            # text helpers of the same module are inlined when the template is folded
+            fn._sa_helpers = {k: f.node for k, f in mod.functions.items()}
+            return fn
         if isinstance(node, ast.Lambda):
             return node
         if isinstance(node, ast.Attribute):
@@ -184,11 +187,40 @@ def fold_function(fn: ast.AST) -> List[List[Piece]]:
     for nm in multi:
         env.pop(nm, None)
     params = _params(fn)
+    helpers = getattr(fn, "_sa_helpers", None)
+    if helpers:
+        env["__helpers__"] = helpers
     out = []
     for st in ast.walk(fn):
         if isinstance(st, ast.Return) and st.value is not None:
             out.append(fold_expr(st.value, env, params))
     return out
+
+
+def _inline_helper(e: ast.Call, env, params, depth):
+    """`helper(e0, e1)`: a module-level function of plain text arguments with one return — its template with the caller's pieces put in"""
+    helpers = env.get("__helpers__") or {}
+    if not (isinstance(e.func, ast.Name) and e.func.id in helpers) or e.keywords:
+        return None
+    h = helpers[e.func.id]
+    hp = [a.arg for a in h.args.args]
+    if len(hp) != len(e.args) or h.args.vararg or h.args.kwarg or h.args.kwonlyargs:
+        return None
+    rets = [st for st in ast.walk(h) if isinstance(st, ast.Return) and st.value is not None]
+    if len(rets) != 1:
+        return None
+    body = [st for st in h.body if not (isinstance(st, ast.Expr) and isinstance(st.value, ast.Constant))]
+    if len(body) != 1 or body[0] is not rets[0]:
+        return None
+    actual = {p: fold_expr(a, env, params, depth + 1) for p, a in zip(hp, e.args)}
+    inner = fold_expr(rets[0].value, {"__helpers__": helpers}, [], depth + 1)
+    out: List[Piece] = []
+    for kind, val in inner:
+        if kind == "opaque" and val in actual:
+            out += actual[val]
+        else:
+            out.append((kind, val))
+    return _merge(out)
 
 
 def _params(fn) -> List[str]:
@@ -236,6 +268,9 @@ def fold_expr(e: ast.AST, env: Dict[str, ast.AST], params: List[str], depth: int
                 return [("arg", a.slice.value)]
         if dn == "str" and len(e.args) == 1:
             return fold_expr(e.args[0], env, params, depth + 1)
+        inl = _inline_helper(e, env, params, depth)
+        if inl is not None:
+            return inl
     if isinstance(e, ast.UnaryOp) and isinstance(e.op, ast.USub):
         return [("opaque", unparse(e))]
     return [("opaque", unparse(e))]
